@@ -285,4 +285,177 @@ example : (rrun { reentry := fun _ => false } (rinit reProgs) [0, 0, 1, 0, 0, 0,
 /-- a single thread whose module re-enters the package lock is fine under the RLock (nested acquisition) -/
 example : (rrun reCfg (rinit reProgs) [0, 0, 0, 0, 0, 0, 0, 0]).pc 0 = .idle := by decide +kernel
 
+
+/-! ### the full model: importlib's module locks, both routes, class configuration, dispatch fill -/
+
+open SqlglotModel.Threads.Full
+
+/-- finite table fact, decided completely (ast of dialect.py, the two `__init__.py`, generator.py):
+    `_Dialect.__new__` stores into `_classes` as its last statement before `return klass`; `get` and `__getitem__` go to
+    `_try_load` also while `_is_initializing(key)`; neither lazy `__getattr__` reads `sys.modules` / `globals()` outside
+    `with _import_lock`; `Generator.__init__` stores a table into `_DISPATCH_CACHE` only after `_build_dispatch` returned -/
+theorem generated_shape_ok :
+    shape = { registerLast := true, lookupsWait := true, dialectsLockFirst := true, optimizerLockFirst := true,
+              buildThenStore := true } := by decide
+
+/-- a configuration of the full model that has the orderings the source has -/
+structure FullFromSource (cfg : FCfg) : Prop where
+  reg : cfg.registerFirst = !shape.registerLast
+  wait : cfg.lookupWaits = shape.lookupsWait
+  fast : cfg.fastPath = !(shape.dialectsLockFirst && shape.optimizerLockFirst)
+  early : cfg.publishEarly = !shape.buildThenStore
+
+theorem FullFromSource.good {cfg : FCfg} (h : FullFromSource cfg) : Good cfg := by
+  have := generated_shape_ok
+  exact ⟨by rw [h.wait, this], by rw [h.fast, this]; rfl, by rw [h.early, this]; rfl⟩
+
+theorem FullFromSource.registerLast {cfg : FCfg} (h : FullFromSource cfg) : cfg.registerFirst = false := by
+  rw [h.reg, generated_shape_ok]; rfl
+
+/-- importlib's lock of a module has one owner: two threads that are past its acquisition are the same thread -/
+theorem full_module_lock_exclusive (cfg : FCfg) (progs : Tid → List Full.Op) (s : FState)
+    (hr : FReach cfg (finit progs) s) (m : Mod) (t u : Tid) (f g : Full.Frame)
+    (hf : f ∈ (s.threads t).stack) (hfm : f.holdsMod = some m)
+    (hg : g ∈ (s.threads u).stack) (hgm : g.holdsMod = some m) : t = u :=
+  (FInv.reach hr).m.mutex (mheld_pos hf hfm) (mheld_pos hg hgm)
+
+/-- With importlib's module locks in the model a module body starts at most once for ANY mix of the attribute route,
+    the string route (`_try_load`, no package lock) and nested imports, any number of threads — and whatever the
+    package lock, the registry order or the fast paths look like. -/
+theorem full_load_exactly_once (cfg : FCfg) (progs : Tid → List Full.Op) (s : FState)
+    (hr : FReach cfg (finit progs) s) (m : Mod) : s.loads m ≤ 1 ∧ (s.loads m = 1 ↔ s.started m = true) := by
+  have h := (FInv.reach hr).load.loads m
+  by_cases hs : s.started m = true <;> simp [hs] at h ⊢ <;> omega
+
+/-- results so far ++ sequential answers of what is left = the sequential result list, in every reachable state -/
+theorem full_results_prefix (cfg : FCfg) (hsrc : FullFromSource cfg) (progs : Tid → List Full.Op) (s : FState)
+    (hr : FReach cfg (finit progs) s) (t : Tid) :
+    (s.threads t).results ++ (s.threads t).todo.map (fexpected cfg) = fseq cfg (progs t) :=
+  ffinal_reach hsrc.good hr t
+
+/-- Every complete schedule of programs mixing lazy attribute accesses, string look-ups and generator
+    constructions gives every thread the results of running alone. -/
+theorem full_results_schedule_independent (cfg : FCfg) (hsrc : FullFromSource cfg) (progs : Tid → List Full.Op)
+    (sched : List Tid) (hc : FComplete (frun cfg (finit progs) sched)) (t : Tid) :
+    ((frun cfg (finit progs) sched).threads t).results = fseq cfg (progs t) := by
+  have h := ffinal_reach hsrc.good (freach_frun (FReach.init (cfg := cfg) (s0 := finit progs)) sched) t
+  have hf := hc t
+  simp only [Full.Thread.finished, Bool.and_eq_true, List.isEmpty_iff] at hf
+  simpa [ffinal, Th, hf.2] using h
+
+/-- every result any thread has obtained so far is the sequential answer of one of its calls -/
+theorem full_every_result_sequential (cfg : FCfg) (hsrc : FullFromSource cfg) (progs : Tid → List Full.Op)
+    (s : FState) (hr : FReach cfg (finit progs) s) (t : Tid) (r : Full.Res) (hmem : r ∈ (s.threads t).results) :
+    ∃ op, op ∈ progs t ∧ r = fexpected cfg op := by
+  have h := full_results_prefix cfg hsrc progs s hr t
+  have : r ∈ fseq cfg (progs t) := by rw [← h]; exact List.mem_append_left _ hmem
+  simp only [fseq, List.mem_map] at this
+  obtain ⟨op, h1, h2⟩ := this
+  exact ⟨op, h1, h2.symm⟩
+
+/-- `_classes[...] = klass` is the LAST thing `__new__` does: whatever `Dialect.get` hands out is a fully configured
+    class — in every reachable state, for every look-up result (this part needs the store order only). -/
+theorem no_half_configured_class_visible (cfg : FCfg) (hreg : cfg.registerFirst = !shape.registerLast)
+    (progs : Tid → List Full.Op) (s : FState) (hr : FReach cfg (finit progs) s) (t : Tid)
+    (m : Mod) (found configured moduleDone : Bool)
+    (hmem : Full.Res.cls m found configured moduleDone ∈ (s.threads t).results) (hf : found = true) :
+    configured = true := by
+  have hrl : cfg.registerFirst = false := by rw [hreg, generated_shape_ok]; rfl
+  exact resGood_reach hrl hr t _ hmem hf
+
+/-- … and since look-ups also wait while the module is `_initializing`, the class is found, configured and its
+    module body has finished. -/
+theorem lookups_return_finished_classes (cfg : FCfg) (hsrc : FullFromSource cfg) (progs : Tid → List Full.Op)
+    (s : FState) (hr : FReach cfg (finit progs) s) (t : Tid) (m : Mod) (found configured moduleDone : Bool)
+    (hmem : Full.Res.cls m found configured moduleDone ∈ (s.threads t).results) :
+    found = true ∧ configured = true ∧ moduleDone = true := by
+  obtain ⟨op, _, h⟩ := full_every_result_sequential cfg hsrc progs s hr t _ hmem
+  cases op <;> simp [fexpected] at h
+  exact ⟨h.2.1, h.2.2.1, h.2.2.2⟩
+
+/-- The lazy `__getattr__` takes the lock before it looks at `sys.modules`: it never returns a partially initialised
+    module, whoever is importing it at the time. -/
+theorem lazy_access_never_partial (cfg : FCfg) (hsrc : FullFromSource cfg) (progs : Tid → List Full.Op)
+    (s : FState) (hr : FReach cfg (finit progs) s) (t : Tid) (m : Mod) (moduleDone : Bool)
+    (hmem : Full.Res.attr m moduleDone ∈ (s.threads t).results) : moduleDone = true := by
+  obtain ⟨op, _, h⟩ := full_every_result_sequential cfg hsrc progs s hr t _ hmem
+  cases op <;> simp [fexpected] at h
+  exact h.2
+
+/-- `_build_dispatch` runs to the end before the table is stored: no generator ever gets a partial dispatch table. -/
+theorem dispatch_never_partial (cfg : FCfg) (hsrc : FullFromSource cfg) (progs : Tid → List Full.Op)
+    (s : FState) (hr : FReach cfg (finit progs) s) (t : Tid) (m : Mod) (n : Nat)
+    (hmem : Full.Res.disp m n ∈ (s.threads t).results) : n = cfg.tableSize m := by
+  obtain ⟨op, _, h⟩ := full_every_result_sequential cfg hsrc progs s hr t _ hmem
+  cases op <;> simp [fexpected] at h
+  obtain ⟨h1, h2⟩ := h
+  subst h1; exact h2
+
+/-! witnesses: each ordering the source does NOT have, in the same model -/
+
+def fbase : FCfg := { body := fun _ => [], cfgSteps := fun _ => 2, tableSize := fun _ => 3, registerFirst := false,
+                      lookupWaits := true, fastPath := false, publishEarly := false }
+
+def ftwo (a b : List Full.Op) : Tid → List Full.Op := fun t => if t = 0 then a else if t = 1 then b else []
+
+example : FullFromSource fbase := ⟨by decide, by decide, by decide, by decide⟩
+
+/-- the ordering before ddc0df6 (store first, look-ups do not wait): thread 1's look-up gets the class while thread 0
+    is still configuring it -/
+theorem register_first_exposes_half_configured_class :
+    ((frun { fbase with registerFirst := true, lookupWaits := false } (finit (ftwo [.lookup 0] [.lookup 0]))
+        [0, 0, 0, 0, 0, 1]).threads 1).results = [.cls 0 true false false] := by decide +kernel
+
+/-- store last but no waiting: configured, yet the rest of the module body has not run (athena's `_TrinoTokenizer`) -/
+theorem no_wait_exposes_unfinished_module :
+    ((frun { fbase with lookupWaits := false } (finit (ftwo [.lookup 0] [.lookup 0]))
+        [0, 0, 0, 0, 0, 0, 0, 0, 1]).threads 1).results = [.cls 0 true true false] := by decide +kernel
+
+/-- the seeded optimizer variant: a lock-free `sys.modules` fast path returns the module thread 0 is still executing -/
+theorem fast_path_returns_partial_module :
+    ((frun { fbase with fastPath := true } (finit (ftwo [.access 0] [.access 0]))
+        [0, 0, 0, 0, 0, 1]).threads 1).results = [.attr 0 false] := by decide +kernel
+
+/-- the seeded dispatch variant: the table is stored empty and filled in place — thread 1 gets it with 0 of 3 entries -/
+theorem publish_early_exposes_partial_table :
+    ((frun { fbase with publishEarly := true } (finit (ftwo [.gen 0] [.gen 0])) [0, 1]).threads 1).results
+      = [.disp 0 0] := by decide +kernel
+
+/-- non-vacuity: both routes, nested plain imports and generator fills, two threads, complete -/
+def fdemoBody : Mod → List Item := fun m => if m = 2 then [.direct 0, .direct 1] else []
+def fdemoProgs : Tid → List Full.Op := ftwo [.access 2, .lookup 1, .gen 2] [.lookup 2, .gen 2, .access 0]
+def frr : Nat → List Tid
+  | 0 => []
+  | n + 1 => 0 :: 1 :: 1 :: 0 :: frr n
+
+theorem full_demo_complete : FComplete (frun { fbase with body := fdemoBody } (finit fdemoProgs) (frr 30)) := by
+  intro t
+  by_cases h0 : t = 0
+  · subst h0; decide +kernel
+  · by_cases h1 : t = 1
+    · subst h1; decide +kernel
+    · have hmem : t ∉ frr 30 := by
+        have : ∀ n, ∀ x ∈ frr n, x = 0 ∨ x = 1 := by
+          intro n
+          induction n with
+          | zero => simp [frr]
+          | succ k ih =>
+            intro x hx
+            simp only [frr, List.mem_cons] at hx
+            rcases hx with h | h | h | h | h
+            · exact Or.inl h
+            · exact Or.inr h
+            · exact Or.inr h
+            · exact Or.inl h
+            · exact ih x h
+        intro hin
+        rcases this 30 t hin with h | h
+        · exact h0 h
+        · exact h1 h
+      rw [frun_others _ t _ _ hmem]
+      simp [finit, fdemoProgs, ftwo, h0, h1, Full.Thread.finished]
+
+example : ((frun { fbase with body := fdemoBody } (finit fdemoProgs) (frr 30)).threads 1).results
+    = [.cls 2 true true true, .disp 2 3, .attr 0 true] := by decide +kernel
+
 end SqlglotModel.Properties.C19
